@@ -1266,6 +1266,27 @@ theorem clearWhiteout_faith (layers : List VPath) (hl : GoodLayers layers) (p : 
   · exact faith_removeFile wo hwo
   · exact .pure _
 
+/-- `clear_whiteout` of `create_dir` (fix of O11): only `FileNotFound` of the removal is swallowed;
+the injected error has kind `.io` and is propagated -/
+theorem clearWhiteoutT_faith (layers : List VPath) (hl : GoodLayers layers) (p : Str) :
+    FaithfulIO (clearWhiteoutT layers p) := by
+  unfold clearWhiteoutT
+  apply FaithfulIO.bindQ _ (.ret _) (whiteoutPath_good layers hl p)
+  intro wo hwo
+  apply FaithfulIO.bind (faith_exists wo hwo)
+  intro b; split
+  · refine ⟨fun w hw => ?_⟩
+    have h1 := (faith_removeFile wo hwo).io w hw
+    cases hres : wo.removeFile w with
+    | mk r w' =>
+      rw [hres] at h1
+      cases r with
+      | ok u => intro hfin; have := h1 hfin; simp [Res.isIo] at this
+      | err k pth =>
+        cases k <;> (intro hfin; have := h1 hfin; first | rfl | simp [Res.isIo] at this)
+      | panic => intro hfin; have := h1 hfin; simp [Res.isIo] at this
+  · exact .pure _
+
 theorem addWhiteout_faith (layers : List VPath) (hl : GoodLayers layers) (p : Str) :
     FaithfulIO (addWhiteout layers p) := by
   unfold addWhiteout
@@ -1291,8 +1312,34 @@ theorem createDir_faith (layers : List VPath) (hl : GoodLayers layers) (p : Str)
     intro md; exact .failK _
   · apply FaithfulIO.bindQ _ (.ret _) (writePath_good layers hl p)
     intro wp hwp
-    apply FaithfulIO.bind (faith_createDir wp hwp)
-    intro _; exact clearWhiteout_faith layers hl p
+    -- the write layer's answer is inspected: `ok` and `DirectoryExists` are followed by the
+    -- tolerant clearing of the whiteout; the injected error has kind `.io` and is passed through
+    refine ⟨fun w hw => ?_⟩
+    have h1 := (faith_createDir wp hwp).io w hw
+    have hc := clearWhiteoutT_faith layers hl p
+    cases hres : wp.createDir w with
+    | mk r w' =>
+      rw [hres] at h1
+      cases hfw : w'.fired with
+      | true =>
+        obtain ⟨pth, rfl⟩ := (Res.isIo_iff r).1 (h1 hfw)
+        intro _; rfl
+      | false =>
+        cases r with
+        | ok u => cases u; exact hc.io w' hfw
+        | err k pth =>
+          cases k <;> try (dsimp only; intro hfin; rw [hfw] at hfin; cases hfin)
+          dsimp only
+          intro hfin
+          have h2 := hc.io w' hfw
+          cases hres2 : clearWhiteoutT layers p w' with
+          | mk r2 w2 =>
+            rw [hres2] at h2 hfin
+            cases r2 with
+            | ok u => cases u; have := h2 hfin; simp [Res.isIo] at this
+            | err k2 pth2 => exact h2 hfin
+            | panic => exact h2 hfin
+        | panic => dsimp only; intro hfin; rw [hfw] at hfin; cases hfin
 
 theorem refuseDir_faith (layers : List VPath) (hl : GoodLayers layers) (p : Str) :
     FaithfulIO (refuseDir layers p) := by
